@@ -2,6 +2,7 @@ mod cli;
 mod core;
 mod gval;
 mod known;
+mod lsp;
 mod norm;
 mod prog;
 mod proggen;
@@ -28,6 +29,7 @@ fn factory_for(id: &str) -> Option<(&'static str, Factory)> {
         "C07" => ("C07", |t| Box::new(props::c07::C07::new(t)) as Box<dyn Property>),
         "C08" => ("C08", |t| Box::new(props::c08::C08::new(t)) as Box<dyn Property>),
         "C19" => ("C19", |t| Box::new(props::c19::C19::new(t)) as Box<dyn Property>),
+        "C20" => ("C20", |t| Box::new(props::c20::C20::new(t)) as Box<dyn Property>),
         "C17" => ("C17", |t| Box::new(props::c17::C17::new(t)) as Box<dyn Property>),
         "C18" => ("C18", |t| Box::new(props::c18::C18::new(t)) as Box<dyn Property>),
         "C16" => ("C16", |t| Box::new(props::c16::C16::new(t)) as Box<dyn Property>),
